@@ -29,6 +29,30 @@ pub fn run_cli(cwd: &Path, args: &[&str]) -> CliOut {
     CliOut { code: out.status.code(), stdout: String::from_utf8_lossy(&out.stdout).into(), stderr: String::from_utf8_lossy(&out.stderr).into(), timed_out: false }
 }
 
+/// like `run_cli`, with text fed to the process on stdin (answers to its prompts)
+pub fn run_cli_stdin(cwd: &Path, args: &[&str], input: &str) -> CliOut {
+    use std::io::Write;
+    let mut child = match Command::new(CLI).args(args).current_dir(cwd).env("NO_COLOR", "1").env_remove("CLICOLOR_FORCE")
+        .stdin(Stdio::piped()).stdout(Stdio::piped()).stderr(Stdio::piped()).spawn() {
+        Ok(c) => c,
+        Err(e) => return CliOut { code: None, stdout: String::new(), stderr: format!("spawn failed: {}", e), timed_out: false },
+    };
+    if let Some(mut si) = child.stdin.take() { let _ = si.write_all(input.as_bytes()); }
+    let t0 = Instant::now();
+    loop {
+        match child.try_wait() {
+            Ok(Some(_)) => break,
+            Ok(None) => {
+                if t0.elapsed() > Duration::from_secs(20) { let _ = child.kill(); let _ = child.wait(); return CliOut { code: None, stdout: String::new(), stderr: "timeout".into(), timed_out: true }; }
+                std::thread::sleep(Duration::from_millis(1));
+            }
+            Err(_) => break,
+        }
+    }
+    let out = child.wait_with_output().expect("wait");
+    CliOut { code: out.status.code(), stdout: String::from_utf8_lossy(&out.stdout).into(), stderr: String::from_utf8_lossy(&out.stderr).into(), timed_out: false }
+}
+
 pub struct Sandbox { pub dir: PathBuf }
 impl Sandbox {
     pub fn new(tag: &str, n: usize) -> Self {
